@@ -23,7 +23,7 @@ pub broadcast proof fn axiom_items_of_vec(v: Vec<TSType>)
 //@ contract nitrogql_printer::ts_types::ts_types_util ::fn ts_union
 //@   attr #[verifier::external_body]
 //@   ret r
-//@   ensures [C01.treewrap.assumed_ts_union] ({ let s = crate::items_of(types); &&& (s.len() == 0 ==> r is Never) &&& (s.len() == 1 ==> r == s[0]) &&& (s.len() >= 2 ==> (r matches TSType::Union(v) && v@ == s)) })
+//@   ensures [C01+C02.treewrap.assumed_ts_union] ({ let s = crate::items_of(types); &&& (s.len() == 0 ==> r is Never) &&& (s.len() == 1 ==> r == s[0]) &&& (s.len() >= 2 ==> (r matches TSType::Union(v) && v@ == s)) })
 //@ end
 
 // ---------------------------------------------------------------- oracle (GraphQL spec 6.4.3 CompleteValue, wrappers)
@@ -82,7 +82,7 @@ pub open spec fn completes<S, N>(t: Type<S, N>, leafset: spec_fn(JV) -> bool, v:
         Type::NonNull(n) => !(v is Null) && completes(n.inner, leafset, v),
     }
 }
-//@ lemma [C01.treewrap.semantics_inner] lemma_sem_inner
+//@ lemma [C01+C02.treewrap.semantics_inner] lemma_sem_inner
 pub proof fn lemma_sem_inner<S, N>(res: TSType, t: Type<S, N>, leaf: TSType, leafset: spec_fn(JV) -> bool, v: JV)
     requires renders_inner(res, t, leaf), plain_leaf(leaf), forall|x: JV| #[trigger] leafset(x) ==> !(x is Null),
     ensures ts_admits(res, leaf, leafset, v) <==> (!(v is Null) && completes(t, leafset, v)),
@@ -104,7 +104,7 @@ pub proof fn lemma_sem_inner<S, N>(res: TSType, t: Type<S, N>, leaf: TSType, lea
     }
 }
 /// C01 direction (==>right-to-left): every completed value is admitted; C02 direction: nothing else is.
-//@ lemma [C02.treewrap.semantics_outer] lemma_sem_outer
+//@ lemma [C01+C02.treewrap.semantics_outer] lemma_sem_outer
 pub proof fn lemma_sem_outer<S, N>(res: TSType, t: Type<S, N>, leaf: TSType, leafset: spec_fn(JV) -> bool, v: JV)
     requires renders_outer(res, t, leaf), plain_leaf(leaf), forall|x: JV| #[trigger] leafset(x) ==> !(x is Null),
     ensures ts_admits(res, leaf, leafset, v) <==> completes(t, leafset, v),
@@ -130,23 +130,23 @@ pub proof fn lemma_sem_outer<S, N>(res: TSType, t: Type<S, N>, leaf: TSType, lea
 
 //@ contract nitrogql_printer::selection_tree::to_ts ::fn map_to_tstype
 //@   ret out
-//@   requires [C01.treewrap.outer.pre_total] forall|n: &NamedType<Str, OriginalNode>| mapper.requires((n,))
-//@   ensures [C01.treewrap.outer.renders] exists|o: TSType| mapper.ensures((&crate::leaf_of(*ty),), o) && crate::renders_outer(out, *ty, o)
-//@   decreases [C01.treewrap.outer.terminates] *ty, 1nat
+//@   requires [C01+C02.treewrap.outer.pre_total] forall|n: &NamedType<Str, OriginalNode>| mapper.requires((n,))
+//@   ensures [C01+C02.treewrap.outer.renders] exists|o: TSType| mapper.ensures((&crate::leaf_of(*ty),), o) && crate::renders_outer(out, *ty, o)
+//@   decreases [C01+C02.treewrap.outer.terminates] *ty, 1nat
 //@   prefix let ghost ty0 = *ty; broadcast use crate::axiom_items_of_vec;
-//@   hint before 0 "if nullable {" :: [C01.treewrap.outer.renders#nonnull] proof { let o = choose|o: TSType| mapper.ensures((&crate::leaf_of(ty0),), o) && crate::renders_inner(res, ty0, o); if !nullable { assert(crate::renders_outer(res, ty0, o)); } }
-//@   wrap_tail 0 "if nullable {" :: [C01.treewrap.outer.renders#union] proof { let o = choose|o: TSType| mapper.ensures((&crate::leaf_of(ty0),), o) && crate::renders_inner(res, ty0, o); let v = r__->Union_0; assert(v@.len() == 2 && v@[0] == res && v@[1] == TSType::Null); assert(crate::renders_outer(r__, ty0, o)); }
+//@   hint before 0 "if nullable {" :: [C01+C02.treewrap.outer.renders#nonnull] proof { let o = choose|o: TSType| mapper.ensures((&crate::leaf_of(ty0),), o) && crate::renders_inner(res, ty0, o); if !nullable { assert(crate::renders_outer(res, ty0, o)); } }
+//@   wrap_tail 0 "if nullable {" :: [C01+C02.treewrap.outer.renders#union] proof { let o = choose|o: TSType| mapper.ensures((&crate::leaf_of(ty0),), o) && crate::renders_inner(res, ty0, o); let v = r__->Union_0; assert(v@.len() == 2 && v@[0] == res && v@[1] == TSType::Null); assert(crate::renders_outer(r__, ty0, o)); }
 //@ end
 //@ contract nitrogql_printer::selection_tree::to_ts ::fn map_to_tstype_impl
 //@   ret out
-//@   requires [C01.treewrap.inner.pre_total] forall|n: &NamedType<Str, OriginalNode>| mapper.requires((n,))
-//@   ensures [C01.treewrap.inner.renders] exists|o: TSType| mapper.ensures((&crate::leaf_of(*ty),), o) && crate::renders_inner(out.0, *ty, o)
-//@   ensures [C02.treewrap.inner.flag] out.1 == !(*ty is NonNull)
-//@   decreases [C01.treewrap.inner.terminates] *ty, 0nat
+//@   requires [C01+C02.treewrap.inner.pre_total] forall|n: &NamedType<Str, OriginalNode>| mapper.requires((n,))
+//@   ensures [C01+C02.treewrap.inner.renders] exists|o: TSType| mapper.ensures((&crate::leaf_of(*ty),), o) && crate::renders_inner(out.0, *ty, o)
+//@   ensures [C01+C02.treewrap.inner.flag] out.1 == !(*ty is NonNull)
+//@   decreases [C01+C02.treewrap.inner.terminates] *ty, 0nat
 //@   prefix let ghost ty0 = *ty;
-//@   wrap_arm 0 0 :: [C01.treewrap.inner.renders#named] proof { assert(crate::leaf_of(ty0) == *name); assert(mapper.ensures((&crate::leaf_of(ty0),), r__.0)); assert(crate::renders_inner(r__.0, ty0, r__.0)); }
-//@   wrap_arm 0 1 :: [C01.treewrap.inner.renders#list] proof { let b = *(r__.0->Array_0); let o = choose|o: TSType| mapper.ensures((&crate::leaf_of(inner.inner),), o) && crate::renders_outer(b, inner.inner, o); assert(crate::leaf_of(ty0) == crate::leaf_of(inner.inner)); assert(crate::renders_inner(r__.0, ty0, o)); }
-//@   wrap_arm 0 2 :: [C01.treewrap.inner.renders#nonnull] proof { let o = choose|o: TSType| mapper.ensures((&crate::leaf_of(inner.inner),), o) && crate::renders_inner(r__.0, inner.inner, o); assert(crate::leaf_of(ty0) == crate::leaf_of(inner.inner)); assert(crate::renders_inner(r__.0, ty0, o)); }
+//@   wrap_arm 0 0 :: [C01+C02.treewrap.inner.renders#named] proof { assert(crate::leaf_of(ty0) == *name); assert(mapper.ensures((&crate::leaf_of(ty0),), r__.0)); assert(crate::renders_inner(r__.0, ty0, r__.0)); }
+//@   wrap_arm 0 1 :: [C01+C02.treewrap.inner.renders#list] proof { let b = *(r__.0->Array_0); let o = choose|o: TSType| mapper.ensures((&crate::leaf_of(inner.inner),), o) && crate::renders_outer(b, inner.inner, o); assert(crate::leaf_of(ty0) == crate::leaf_of(inner.inner)); assert(crate::renders_inner(r__.0, ty0, o)); }
+//@   wrap_arm 0 2 :: [C01+C02.treewrap.inner.renders#nonnull] proof { let o = choose|o: TSType| mapper.ensures((&crate::leaf_of(inner.inner),), o) && crate::renders_inner(r__.0, inner.inner, o); assert(crate::leaf_of(ty0) == crate::leaf_of(inner.inner)); assert(crate::renders_inner(r__.0, ty0, o)); }
 //@ end
 
 //@ canary
